@@ -19,6 +19,7 @@ theorem sk_server_handler_processStreamingRpc : Generated.sk_server_handler_proc
 theorem sk_server_handler_runStream : Generated.sk_server_handler_runStream = Expected.sk_server_handler_runStream := by decide
 theorem sk_server_handler_unregisterStream : Generated.sk_server_handler_unregisterStream = Expected.sk_server_handler_unregisterStream := by decide
 theorem sk_server_handler_resetStream : Generated.sk_server_handler_resetStream = Expected.sk_server_handler_resetStream := by decide
+theorem sk_server_handler_processUnaryRpc : Generated.sk_server_handler_processUnaryRpc = Expected.sk_server_handler_processUnaryRpc := by decide
 
 theorem workers : Generated.numRpcWorkers = 8 := by decide
 def handlers_cancelled_at_return_at_source := ServerConn.handlers_cancelled_at_return (srvCfg Generated.cfg) (by decide)
